@@ -77,7 +77,7 @@ func c08Case(c *core.Ctx, idx int) {
 	c.Cover("family", fmt.Sprint(fam))
 	c.Add("gaps_between_tokens", int64(len(toks)))
 	c.NonTrivial(base, []byte(pc.ver))
-	if ok && c.WantSample() && len(toks) > 12 && len(toks) < 40 {
+	if ok && c.WantSample() && len(toks) > 8 && len(toks) < 90 {
 		c.Sample(map[string]interface{}{"canonical": string(base), "a_comment_layout": string(gen.Render(toks, gen.LayComments, r.Split("s"), nil)), "version": pc.ver, "layouts_compared": n})
 	}
 }
